@@ -38,17 +38,52 @@ var c08Tracked = map[string]string{
 type c04Path struct {
 	conds []string
 	calls []string
+	sigs  []string // per tracked call: ⟨call, first address-like argument, second, coins / contract argument⟩ (C04 round 3)
 	done  bool // returned successfully
 	fail  bool // returned an error
 }
 
 func (p c04Path) clone() c04Path {
-	return c04Path{conds: append([]string{}, p.conds...), calls: append([]string{}, p.calls...), done: p.done, fail: p.fail}
+	return c04Path{conds: append([]string{}, p.conds...), calls: append([]string{}, p.calls...), sigs: append([]string{}, p.sigs...), done: p.done, fail: p.fail}
+}
+
+// c04Refs: the closed lexical vocabulary of argument expressions (`Model/C04Sig.lean`, `Ref`); anything else is `.other`
+var c04Refs = map[string]bool{
+	"k_moduleName": true, "types_ModuleName": true, "ibctransfertypes_ModuleName": true, "k_moduleAddress": true,
+	"holder": true, "sender": true, "receiver": true, "from_": true, "erc20Contract": true, "pair_GetERC20Contract": true,
+	"bridgeToken": true, "coin": true, "targetCoin": true, "baseCoin": true, "ibcCoin": true, "addBridgeFee": true, "coins": true,
+}
+
+var c04Space = regexp.MustCompile(`\s+`)
+
+// c04Ref turns an argument expression into a constructor of `Ref`, lexically: `sdk.NewCoins(x)` -> x, `x.Bytes()` -> x,
+// `a.b` -> a_b, `f()` -> f
+func c04Ref(src string) string {
+	q := c04Space.ReplaceAllString(src, "")
+	if strings.HasPrefix(q, "sdk.NewCoins(") && strings.HasSuffix(q, ")") {
+		q = q[len("sdk.NewCoins(") : len(q)-1]
+	}
+	q = strings.TrimSuffix(q, ".Bytes()")
+	q = strings.TrimSuffix(q, "()")
+	q = strings.ReplaceAll(q, ".", "_")
+	if q == "from" {
+		q = "from_"
+	}
+	if c04Refs[q] {
+		return "." + q
+	}
+	return ".other"
 }
 
 // trackedCall returns the Lean constructor of the first tracked keeper call inside an expression, or "".
 func c04TrackedCall(n ast.Node) string {
-	res := ""
+	call, _ := c04TrackedCallSig(nil, n)
+	return call
+}
+
+// c04TrackedCallSig: the constructor and (with c != nil) the typed signature of the first tracked keeper call
+func c04TrackedCallSig(c *ctxT, n ast.Node) (string, string) {
+	res, sig := "", ""
 	ast.Inspect(n, func(x ast.Node) bool {
 		if res != "" {
 			return false
@@ -58,6 +93,22 @@ func c04TrackedCall(n ast.Node) string {
 				if v, ok := c04Tracked[se.Sel.Name]; ok {
 					if inner, ok := se.X.(*ast.SelectorExpr); ok && strings.HasSuffix(inner.Sel.Name, "eeper") {
 						res = v
+						if c != nil {
+							arg := func(i int) string {
+								if i < len(ce.Args) {
+									return c04Ref(c.src(ce.Args[i]))
+								}
+								return ".other"
+							}
+							switch se.Sel.Name {
+							case "SendCoinsFromAccountToModule", "SendCoinsFromModuleToAccount":
+								sig = "⟨" + v + ", " + arg(1) + ", " + arg(2) + ", " + arg(3) + "⟩"
+							case "MintCoins", "BurnCoins":
+								sig = "⟨" + v + ", " + arg(1) + ", .none, " + arg(2) + "⟩"
+							default: // ERC20Mint / ERC20Burn / ERC20Transfer(ctx, contract, from, to, amount)
+								sig = "⟨" + v + ", " + arg(2) + ", " + arg(3) + ", " + arg(1) + "⟩"
+							}
+						}
 						return false
 					}
 				}
@@ -69,7 +120,7 @@ func c04TrackedCall(n ast.Node) string {
 		}
 		return true
 	})
-	return res
+	return res, sig
 }
 
 func c04IsErrCond(c *ctxT, e ast.Expr) bool {
@@ -88,8 +139,9 @@ func c04Walk(c *ctxT, stmts []ast.Stmt, paths []c04Path) []c04Path {
 			switch s := st.(type) {
 			case *ast.IfStmt:
 				if s.Init != nil {
-					if call := c04TrackedCall(s.Init); call != "" {
+					if call, sig := c04TrackedCallSig(c, s.Init); call != "" {
 						p.calls = append(p.calls, call)
+						p.sigs = append(p.sigs, sig)
 					}
 				}
 				if c04IsErrCond(c, s.Cond) {
@@ -116,8 +168,9 @@ func c04Walk(c *ctxT, stmts []ast.Stmt, paths []c04Path) []c04Path {
 					p.done = true
 				} else {
 					last := s.Results[len(s.Results)-1]
-					if call := c04TrackedCall(last); call != "" {
+					if call, sig := c04TrackedCallSig(c, last); call != "" {
 						p.calls = append(p.calls, call)
+						p.sigs = append(p.sigs, sig)
 						p.done = true
 					} else if id, ok := last.(*ast.Ident); ok && id.Name == "nil" {
 						p.done = true
@@ -127,8 +180,9 @@ func c04Walk(c *ctxT, stmts []ast.Stmt, paths []c04Path) []c04Path {
 				}
 				next = append(next, p)
 			default:
-				if call := c04TrackedCall(st); call != "" {
+				if call, sig := c04TrackedCallSig(c, st); call != "" {
 					p.calls = append(p.calls, call)
+					p.sigs = append(p.sigs, sig)
 				}
 				next = append(next, p)
 			}
@@ -174,9 +228,15 @@ func extractC04(c *ctxT) {
 			{"convertERC20NativeCoin_other", []string{"-pair." + fx}}}},
 		{"x/erc20/keeper", "Keeper", "ConvertCoinNativeERC20", []c04Want{{"convertCoinNativeERC20", nil}}},
 		{"x/erc20/keeper", "Keeper", "ConvertERC20NativeToken", []c04Want{{"convertERC20NativeToken", nil}}},
+		// IBC aliases: voucher <-> base coin through the transfer module account
+		{"x/crosschain/keeper", "Keeper", "IBCCoinToBaseCoin", []c04Want{
+			{"ibcCoinToBaseCoin_notVoucher", []string{"+!strings.HasPrefix(coin.Denom"}},
+			{"ibcCoinToBaseCoin_voucher", []string{"-!strings.HasPrefix(coin.Denom"}}}},
+		{"x/crosschain/keeper", "Keeper", "BaseCoinToIBCCoin", []c04Want{
+			{"baseCoinToIBCCoin", []string{"-strings.HasPrefix(coin.Denom"}}}},
 	}
 	var sb strings.Builder
-	sb.WriteString("import FxVerif.Model.C04\nnamespace FxVerif.Gen.C04\nopen FxVerif.Model.Flows (Call)\nopen FxVerif.Model.C04 (BStep BGuard BExit RStep RGuard RExit Cmp CancelRule XStep)\n\n")
+	sb.WriteString("import FxVerif.Model.C04\nnamespace FxVerif.Gen.C04\nopen FxVerif.Model.Flows (Call)\nopen FxVerif.Model.C04 (BStep BGuard BExit RStep RGuard RExit Cmp CancelRule XStep Sig Ref)\n\n")
 	facts := map[string]any{}
 	for _, f := range fns {
 		fd := c.findFunc(f.pkg, f.recv, f.name)
@@ -234,6 +294,18 @@ func extractC04(c *ctxT) {
 				}
 			}
 			sb.WriteString("def " + w.name + " : List Call := " + leanList(calls) + "\n")
+			// typed signatures (module / account / coin expression of every call), same path
+			sigs := []string{}
+			if len(hit) > 0 {
+				sigs = hit[0].sigs
+				for _, h := range hit[1:] {
+					if strings.Join(h.sigs, ",") != strings.Join(sigs, ",") {
+						sigs = append(append([]string{}, sigs...), "⟨.burnCoins, .other, .other, .other⟩") // ambiguous: poison
+						break
+					}
+				}
+			}
+			sb.WriteString("def " + w.name + "_sigs : List Sig := " + leanList(sigs) + "\n")
 		}
 		sb.WriteString("\n")
 	}
